@@ -49,6 +49,25 @@ def _pos(e):
     return e
 
 
+def mentions(f, consts):
+    ids = {c.get_id() for c in consts}
+    stack = [f]
+    seen = set()
+    while stack:
+        t = stack.pop()
+        i = t.get_id()
+        if i in ids:
+            return True
+        if i in seen:
+            continue
+        seen.add(i)
+        if z3.is_quantifier(t):
+            stack.append(t.body())
+        elif z3.is_app(t):
+            stack.extend(t.children())
+    return False
+
+
 def _flatten_and(e, out):
     if z3.is_app(e) and e.decl().kind() == z3.Z3_OP_AND:
         for c in e.children():
@@ -58,30 +77,43 @@ def _flatten_and(e, out):
 
 
 def _ground_consts(fs):
-    """0-ary uninterpreted constants by sort name (only uninterpreted sorts)"""
+    """ground terms (no bound variables) of uninterpreted sorts, by sort name: constants and compound terms such as
+    H_f[x] -- the instantiation set for universally quantified hypotheses (E-matching by hand)"""
     out = {}
-    seen = set()
-    stack = list(fs)
-    while stack:
-        t = stack.pop()
+    seen = {}
+
+    def visit(t):
+        """returns True iff t is ground"""
         i = t.get_id()
         if i in seen:
-            continue
-        seen.add(i)
+            return seen[i]
+        if z3.is_var(t):
+            seen[i] = False
+            return False
         if z3.is_quantifier(t):
-            stack.append(t.body())
-            continue
+            visit(t.body())
+            seen[i] = False
+            return False
+        g = True
         if z3.is_app(t):
-            if t.num_args() == 0 and t.decl().kind() == z3.Z3_OP_UNINTERPRETED:
-                s = t.sort()
-                if s.kind() == z3.Z3_UNINTERPRETED_SORT:
-                    out.setdefault(s.name(), {})[i] = t
-            else:
-                stack.extend(t.children())
+            for c in t.children():
+                if not visit(c):
+                    g = False
+        seen[i] = g
+        if g and z3.is_app(t):
+            s = t.sort()
+            if s.kind() == z3.Z3_UNINTERPRETED_SORT and t.decl().kind() in (z3.Z3_OP_UNINTERPRETED, z3.Z3_OP_SELECT, z3.Z3_OP_ITE):
+                out.setdefault(s.name(), {})[i] = t
+        return g
+
+    import sys
+    sys.setrecursionlimit(max(10000, sys.getrecursionlimit()))
+    for f in fs:
+        visit(f)
     return out
 
 
-MAX_INST = 4000
+MAX_INST = 6000
 
 
 def instantiate_quantifiers(fs):
